@@ -73,7 +73,7 @@ func (f *fault) String() string {
 	if f.Hold {
 		s += "+hold"
 	}
-	if f.Kind == "cut" || f.Kind == "write-error" || f.Kind == "exception+write-error" || f.Kind == "exception-during-write" || f.Kind == "stall" {
+	if f.Kind == "cut" || f.Kind == "write-error" || f.Kind == "exception+write-error" || f.Kind == "exception-during-write" || f.Kind == "stall" || f.Kind == "stall+callback-fail" {
 		s += fmt.Sprintf("@byte%d", f.K)
 	}
 	if f.Kind == "unexpected-packet" {
@@ -238,7 +238,7 @@ func runScenarioWith(sc scn, seed int64, f *fault, readTimeout time.Duration, ba
 		}
 		mu.Unlock()
 		if match {
-			if f.Kind == "callback-fail" || f.Kind == "callback-fail-wrapping-exception" {
+			if f.Kind == "callback-fail" || f.Kind == "callback-fail-wrapping-exception" || f.Kind == "stall+callback-fail" {
 				return true
 			}
 			fire(full)
@@ -393,7 +393,9 @@ func runScenarioWith(sc scn, seed int64, f *fault, readTimeout time.Duration, ba
 	mu.Unlock()
 	if f != nil {
 		switch f.Kind {
-		case "stall-setup":
+		case "stall-setup", "stall+callback-fail":
+			// the server goes silent after K bytes of its response (inside a packet); for the
+			// combined kind a callback of the sender then fails while the receiver waits there
 			sim.Conn.ReadCutAfter = out.HandshakeR + f.K
 			sim.Conn.ReadCutStall = true
 		case "blocked-write-setup":
